@@ -749,3 +749,43 @@ def check_otherquote(case, ctx):
 
 
 SUBS.append(Sub('otherquote', check_otherquote, enumerate=otherquote_cases, shards_quick=1, shards_thorough=1))
+
+
+# --------------------------------------------------------------------------- further listed findings from the defect hunt
+
+
+def listed_cases(tier):
+    yield {'tag': 'url-line-continuation'}
+    yield {'tag': 'stale-sign-after-value-set'}
+    yield {'tag': 'python-number-exponent'}
+
+
+def check_listed(case, ctx):
+    saved = cssutils.log.raiseExceptions
+    cssutils.log.raiseExceptions = False
+    try:
+        ctx.case(case['tag'], True, case)
+        with lib('listed'):
+            if case['tag'] == 'url-line-continuation':
+                pv = PropertyValue('url("a\\\nb")')
+                uri = pv[0].uri if len(pv) == 1 and isinstance(pv[0], URIValue) else None
+                back = PropertyValue(pv.cssText)
+                uri2 = back[0].uri if len(back) == 1 and isinstance(back[0], URIValue) else None
+                if uri != 'ab' or uri2 != 'ab':
+                    raise Violation('listed:url-line-continuation', f'url("a\\<LF>b") denotes "ab"; accessor {uri!r}, written {pv.cssText!r}, re-read {uri2!r}')
+            elif case['tag'] == 'stale-sign-after-value-set':
+                pv = PropertyValue('+1px')
+                pv[0].value = -2
+                out = pv.cssText
+                if frac_of(out) is None or frac_of(out)[4] != -2:
+                    raise Violation('listed:stale-sign-after-value-set', f'PropertyValue("+1px")[0].value = -2 is written {out!r}')
+            else:
+                out = PropertyValue(0.00001).cssText
+                f = frac_of(out)
+                if f is None or f[4] != Fraction(1, 100000):
+                    raise Violation('listed:python-number-exponent', f'PropertyValue(0.00001) is written {out!r}')
+    finally:
+        cssutils.log.raiseExceptions = saved
+
+
+SUBS.append(Sub('listed', check_listed, enumerate=listed_cases, shards_quick=1, shards_thorough=1))
